@@ -3,14 +3,19 @@ py2lean — the translator half of the model/source tie (DESIGN.md 4.1).
 
 Reads /repo's *current* source with `ast` and writes lean/Pycdlib/Generated/*.lean:
   * constants and tables (evaluated from their defining expressions, restricted to literals, range,
-    tuple/set/ord arithmetic),
-  * the arithmetic kernel: loop-free integer functions translated statement by statement into Lean
-    (`translate_function`), for the functions listed in KERNEL.
-Pycdlib/Proofs/Tie*.lean then *prove* that every generated definition equals the hand-written model
+    tuple/set/ord arithmetic; struct format sizes via struct.calcsize),
+  * the arithmetic kernel: integer functions translated statement by statement into Lean over `Int`
+    (assignment, augmented assignment, if/elif/else, return, tuple return, + - * // %, comparisons, and/or/not,
+    min/max, << >> & | ^, table lookup, `for x in data` / `for i, x in enumerate(data)` folds, calls to other
+    translated functions, reads of `self.attr` / `param.attr` turned into parameters).
+    Python semantics of the operators on Int are fixed once, in lean/Pycdlib/Model/PyOps.lean.
+Pycdlib/Props/Tie.lean then *proves* that every generated definition equals the hand-written model
 definition the property theorems are about, so a changed constant, table entry, comparison or rounding
 direction in /repo breaks a proof obligation (not a sample).
 
 A generated file is rewritten only when its text changes (keeps lake's incremental build a no-op).
+Anything outside the subset raises Unsupported: the generated module then lacks that definition and the tie
+lemma fails to elaborate — a stale definition is never left behind.
 """
 import ast
 import os
@@ -34,11 +39,10 @@ def _module_assign(tree, name):
     raise Unsupported('module constant %s not found' % name)
 
 
-def _find_func(tree, qual):
-    parts = qual.split('.')
+def _find(tree, qual):
     body = tree.body
     node = None
-    for p in parts:
+    for p in qual.split('.'):
         for n in body:
             if isinstance(n, (ast.FunctionDef, ast.ClassDef)) and n.name == p:
                 node = n
@@ -47,6 +51,14 @@ def _find_func(tree, qual):
         else:
             raise Unsupported('%s not found' % qual)
     return node
+
+
+def _class_const(tree, cls, name):
+    c = _find(tree, cls)
+    for n in c.body:
+        if isinstance(n, ast.Assign) and len(n.targets) == 1 and isinstance(n.targets[0], ast.Name) and n.targets[0].id == name:
+            return safe_eval(n.value)
+    raise Unsupported('%s.%s not found' % (cls, name))
 
 
 _SAFE = {'range': range, 'tuple': tuple, 'set': set, 'ord': ord, 'len': len, 'list': list, 'sorted': sorted,
@@ -62,12 +74,12 @@ def safe_eval(expr_node):
         elif isinstance(n, ast.Name):
             if n.id not in _SAFE:
                 raise Unsupported('name in constant: %s' % n.id)
-        elif isinstance(n, (ast.Attribute, ast.Lambda, ast.Subscript)) and not isinstance(n, ast.Subscript):
+        elif isinstance(n, (ast.Attribute, ast.Lambda)):
             raise Unsupported('construct in constant: %s' % type(n).__name__)
     return eval(compile(ast.Expression(expr_node), '<const>', 'eval'), {'__builtins__': {}}, dict(_SAFE))
 
 
-def lean_nat_list(name, vals, per_line=12, doc=None):
+def lean_nat_list(name, vals, per_line=10, doc=None):
     out = []
     if doc:
         out.append('/-- %s -/' % doc)
@@ -81,86 +93,103 @@ def lean_nat_list(name, vals, per_line=12, doc=None):
 
 # --------------------------------------------------------------------------- function translator
 
-class FnTranslator:
-    """
-    Translate a loop-free Python function over ints into a Lean `def` over `Int`.
-    Supported: assignment, augmented assignment, if/elif/else, return, int literals, names, + - * // %,
-    comparisons, and/or/not, min/max, << >> & |, calls to other translated functions (by mapping).
-    Statements are compiled in continuation style so that variables may be re-assigned in branches.
-    """
+class Fn:
+    """Translate one Python function into a Lean `def` over Int (see module docstring for the subset)."""
 
-    def __init__(self, calls=None, consts=None):
-        self.calls = calls or {}
-        self.consts = consts or {}
+    def __init__(self, tree, qual, lean_name, calls=None, tables=None, cls=None, fmt_sizes=None, opaque=()):
+        self.tree, self.qual, self.lean_name = tree, qual, lean_name
+        self.calls = calls or {}          # python call text -> lean function name
+        self.tables = tables or {}        # python name -> lean List Nat name
+        self.cls = cls
+        self.fmt_sizes = fmt_sizes or {}  # 'cls.FMT' / 'self.FMT' -> int
+        self.opaque = set(opaque)         # names of opaque objects whose attributes become parameters
+        self.params = []
+        self.attr_params = []
+
+    # ---- expressions
+    def attr_param(self, e):
+        base = e.value.id
+        nm = e.attr if base in ('self', 'cls') else '%s_%s' % (base, e.attr)
+        if nm not in self.attr_params:
+            self.attr_params.append(nm)
+        return nm
 
     def expr(self, e):
         if isinstance(e, ast.Constant):
             if isinstance(e.value, bool):
-                return 'true' if e.value else 'false'
+                raise Unsupported('bool constant in int context')
             if isinstance(e.value, int):
                 return '(%d : Int)' % e.value
             raise Unsupported('constant %r' % (e.value,))
         if isinstance(e, ast.Name):
-            if e.id in self.consts:
-                return '(%d : Int)' % self.consts[e.id]
             return e.id
-        if isinstance(e, ast.UnaryOp):
-            if isinstance(e.op, ast.USub):
-                return '(-%s)' % self.expr(e.operand)
-            if isinstance(e.op, ast.Not):
-                return '(!%s)' % self.bexpr(e.operand)
+        if isinstance(e, ast.Attribute) and isinstance(e.value, ast.Name):
+            return self.attr_param(e)
+        if isinstance(e, ast.UnaryOp) and isinstance(e.op, ast.USub):
+            return '(-%s)' % self.expr(e.operand)
         if isinstance(e, ast.BinOp):
-            ops = {ast.Add: '+', ast.Sub: '-', ast.Mult: '*', ast.FloorDiv: '/', ast.Mod: '%'}
-            for k, v in ops.items():
-                if isinstance(e.op, k):
-                    # Python // and % are floor division; Lean Int `/` and `%` are T-rounding by default,
-                    # so use Int.fdiv / Int.fmod explicitly.
-                    if v == '/':
-                        return '(Int.fdiv %s %s)' % (self.expr(e.left), self.expr(e.right))
-                    if v == '%':
-                        return '(Int.fmod %s %s)' % (self.expr(e.left), self.expr(e.right))
-                    return '(%s %s %s)' % (self.expr(e.left), v, self.expr(e.right))
-            if isinstance(e.op, ast.LShift) and isinstance(e.right, ast.Constant):
-                return '(%s * %d)' % (self.expr(e.left), 1 << e.right.value)
-            if isinstance(e.op, ast.RShift) and isinstance(e.right, ast.Constant):
-                return '(Int.fdiv %s %d)' % (self.expr(e.left), 1 << e.right.value)
-            if isinstance(e.op, ast.BitAnd) and isinstance(e.right, ast.Constant) and \
-                    (e.right.value + 1) & e.right.value == 0:
-                return '(Int.fmod %s %d)' % (self.expr(e.left), e.right.value + 1)
+            l, r = self.expr(e.left), self.expr(e.right)
+            if isinstance(e.op, ast.Add):
+                return '(%s + %s)' % (l, r)
+            if isinstance(e.op, ast.Sub):
+                return '(%s - %s)' % (l, r)
+            if isinstance(e.op, ast.Mult):
+                return '(%s * %s)' % (l, r)
+            if isinstance(e.op, ast.FloorDiv):
+                return '(pyFloorDiv %s %s)' % (l, r)
+            if isinstance(e.op, ast.Mod):
+                return '(pyMod %s %s)' % (l, r)
+            if isinstance(e.op, ast.LShift):
+                return '(pyShl %s %s)' % (l, r)
+            if isinstance(e.op, ast.RShift):
+                return '(pyShr %s %s)' % (l, r)
+            if isinstance(e.op, ast.BitAnd):
+                return '(pyAnd %s %s)' % (l, r)
+            if isinstance(e.op, ast.BitOr):
+                return '(pyOr %s %s)' % (l, r)
+            if isinstance(e.op, ast.BitXor):
+                return '(pyXor %s %s)' % (l, r)
             raise Unsupported('binop %s' % type(e.op).__name__)
-        if isinstance(e, ast.Call) and isinstance(e.func, ast.Name) and e.func.id in ('min', 'max') and len(e.args) == 2:
-            return '(%s %s %s)' % (e.func.id, self.expr(e.args[0]), self.expr(e.args[1]))
+        if isinstance(e, ast.Subscript) and isinstance(e.value, ast.Name) and e.value.id in self.tables:
+            return '(pyIndex %s %s)' % (self.tables[e.value.id], self.expr(e.slice))
         if isinstance(e, ast.Call):
             key = ast.unparse(e.func)
+            if key in ('min', 'max') and len(e.args) == 2:
+                return '(%s %s %s)' % (key, self.expr(e.args[0]), self.expr(e.args[1]))
+            if key == 'struct.calcsize' and len(e.args) == 1:
+                k = ast.unparse(e.args[0])
+                if k in self.fmt_sizes:
+                    return '(%d : Int)' % self.fmt_sizes[k]
+                raise Unsupported('calcsize of %s' % k)
+            if key in ('myord', 'int') and len(e.args) == 1:
+                return self.expr(e.args[0])
+            if key == 'len' and len(e.args) == 1 and isinstance(e.args[0], ast.Name):
+                return '(%s.length : Int)' % e.args[0].id
             if key in self.calls:
                 return '(%s %s)' % (self.calls[key], ' '.join(self.expr(a) for a in e.args))
             raise Unsupported('call %s' % key)
         if isinstance(e, ast.IfExp):
             return '(if %s then %s else %s)' % (self.bexpr(e.test), self.expr(e.body), self.expr(e.orelse))
+        if isinstance(e, ast.Tuple):
+            return '(' + ', '.join(self.expr(x) for x in e.elts) + ')'
         raise Unsupported('expr %s' % ast.dump(e)[:80])
 
     def bexpr(self, e):
         if isinstance(e, ast.Compare) and len(e.ops) == 1:
-            ops = {ast.Lt: '<', ast.LtE: '≤', ast.Gt: '>', ast.GtE: '≥', ast.Eq: '==', ast.NotEq: '!='}
+            ops = {ast.Lt: '<', ast.LtE: '≤', ast.Gt: '>', ast.GtE: '≥', ast.Eq: '=', ast.NotEq: '≠'}
             for k, v in ops.items():
                 if isinstance(e.ops[0], k):
-                    l, r = self.expr(e.left), self.expr(e.comparators[0])
-                    if v in ('==', '!='):
-                        return '(%s %s %s)' % (l, v, r)
-                    return '(decide (%s %s %s))' % (l, v, r)
+                    return '(decide (%s %s %s))' % (self.expr(e.left), v, self.expr(e.comparators[0]))
         if isinstance(e, ast.BoolOp):
             op = ' && ' if isinstance(e.op, ast.And) else ' || '
             return '(' + op.join(self.bexpr(v) for v in e.values) + ')'
         if isinstance(e, ast.UnaryOp) and isinstance(e.op, ast.Not):
             return '(!%s)' % self.bexpr(e.operand)
-        if isinstance(e, ast.Constant) and isinstance(e.value, bool):
-            return 'true' if e.value else 'false'
-        if isinstance(e, ast.Name):     # truthiness of an int
-            return '(%s != 0)' % e.id
-        raise Unsupported('bool expr %s' % ast.dump(e)[:80])
+        # truthiness of an int expression
+        return '(decide (%s ≠ 0))' % self.expr(e)
 
+    # ---- statements (continuation style; `vars_` is the tuple of live state variables for fold bodies)
     def block(self, stmts, cont, ind):
-        """Compile statements; `cont` is Lean text to continue with (or None if the block must return)."""
         pad = '  ' * ind
         if not stmts:
             if cont is None:
@@ -168,46 +197,82 @@ class FnTranslator:
             return pad + cont
         s, rest = stmts[0], stmts[1:]
         if isinstance(s, ast.Expr) and isinstance(s.value, ast.Constant) and isinstance(s.value.value, str):
-            return self.block(rest, cont, ind)       # docstring
+            return self.block(rest, cont, ind)
         if isinstance(s, ast.Return):
             return pad + self.expr(s.value)
         if isinstance(s, ast.Assign) and len(s.targets) == 1 and isinstance(s.targets[0], ast.Name):
+            if isinstance(s.value, ast.Call) and ast.unparse(s.value.func) in ('time.gmtime', 'time.localtime'):
+                self.opaque.add(s.targets[0].id)        # opaque environment object: its fields are parameters
+                return self.block(rest, cont, ind)
             return pad + 'let %s := %s\n' % (s.targets[0].id, self.expr(s.value)) + self.block(rest, cont, ind)
         if isinstance(s, ast.AugAssign) and isinstance(s.target, ast.Name):
             e = ast.BinOp(left=ast.Name(id=s.target.id, ctx=ast.Load()), op=s.op, right=s.value)
             return pad + 'let %s := %s\n' % (s.target.id, self.expr(e)) + self.block(rest, cont, ind)
         if isinstance(s, ast.If):
-            # variables assigned in either branch are threaded through a tuple
-            assigned = sorted({t.id for b in (s.body, s.orelse) for n in b for t in _assigned(n)})
-            returns_body = _always_returns(s.body)
-            returns_else = _always_returns(s.orelse) if s.orelse else False
-            if returns_body and returns_else:
+            t = ast.unparse(s.test)
+            if 'isinstance(' in t or t in ('not self._initialized', 'self._initialized'):
+                if all(isinstance(x, (ast.Raise, ast.Assign)) for x in s.body + s.orelse):
+                    return self.block(rest, cont, ind)      # initialisation guards / py2-py3 shims
+            assigned = sorted({t_.id for b in (s.body, s.orelse) for n in b for t_ in _assigned(n)})
+            rb = _always_returns(s.body)
+            re_ = _always_returns(s.orelse) if s.orelse else False
+            if rb and re_:
                 return (pad + 'if %s then\n' % self.bexpr(s.test) + self.block(s.body, None, ind + 1) + '\n' +
                         pad + 'else\n' + self.block(s.orelse, None, ind + 1))
-            if returns_body and not s.orelse:
+            if rb and not s.orelse:
                 return (pad + 'if %s then\n' % self.bexpr(s.test) + self.block(s.body, None, ind + 1) + '\n' +
                         pad + 'else\n' + self.block(rest, cont, ind + 1))
             if _has_return(s.body) or _has_return(s.orelse):
                 raise Unsupported('return in only part of a branch')
-            tup = '(' + ', '.join(assigned) + ')' if len(assigned) != 1 else assigned[0]
             if not assigned:
                 return self.block(rest, cont, ind)
+            tup = '(' + ', '.join(assigned) + ')' if len(assigned) != 1 else assigned[0]
             body = self.block(s.body, tup, ind + 2)
             orelse = self.block(s.orelse, tup, ind + 2) if s.orelse else '  ' * (ind + 2) + tup
             return (pad + 'let %s :=\n' % tup + pad + '  if %s then\n' % self.bexpr(s.test) + body + '\n' +
                     pad + '  else\n' + orelse + '\n' + self.block(rest, cont, ind))
+        if isinstance(s, ast.For):
+            return self.for_fold(s, rest, cont, ind)
         if isinstance(s, ast.Raise):
             raise Unsupported('raise')
         raise Unsupported('statement %s' % type(s).__name__)
 
-    def function(self, fn, lean_name, params=None, drop_self=True):
-        args = [a.arg for a in fn.args.args]
-        if drop_self and args and args[0] in ('self', 'cls'):
-            args = args[1:]
-        if params is not None:
-            args = params
+    def for_fold(self, s, rest, cont, ind):
+        pad = '  ' * ind
+        if s.orelse:
+            raise Unsupported('for-else')
+        it = s.iter
+        if isinstance(it, ast.Name) and isinstance(s.target, ast.Name):
+            seq, pat = it.id, s.target.id
+        elif isinstance(it, ast.Call) and ast.unparse(it.func) == 'enumerate' and isinstance(s.target, ast.Tuple) \
+                and len(s.target.elts) == 2 and isinstance(it.args[0], ast.Name):
+            seq = '(pyEnumerate %s)' % it.args[0].id
+            pat = '(%s, %s)' % (s.target.elts[0].id, s.target.elts[1].id)
+        else:
+            raise Unsupported('for over %s' % ast.unparse(it))
+        loop_targets = {n.id for n in ast.walk(s.target) if isinstance(n, ast.Name)}
+        assigned = [t.id for n in s.body for t in _assigned(n)]
+        # state = variables assigned in the body that already exist before the loop (read-before-write in body)
+        state = []
+        for v in assigned:
+            if v not in state and v not in loop_targets and _read_before_write(s.body, v):
+                state.append(v)
+        if not state:
+            raise Unsupported('loop without carried state')
+        tup = '(' + ', '.join(state) + ')' if len(state) != 1 else state[0]
+        body = self.block(s.body, tup, ind + 2)
+        return (pad + 'let %s := %s.foldl (fun %s %s =>\n' % (tup, seq, tup if len(state) == 1 else 'st__', pat) +
+                (pad + '    let %s := st__\n' % tup if len(state) != 1 else '') +
+                body + ') %s\n' % tup + self.block(rest, cont, ind))
+
+    def translate(self, ret='Int', seq_params=()):
+        fn = _find(self.tree, self.qual)
+        args = [a.arg for a in fn.args.args if a.arg not in ('self', 'cls')]
         body = self.block(fn.body, None, 1)
-        return 'def %s %s : Int :=\n%s\n' % (lean_name, ' '.join('(%s : Int)' % a for a in args), body)
+        args = [a for a in args if a not in self.opaque]
+        sig = ' '.join('(%s : %s)' % (a, 'List Int' if a in seq_params else 'Int') for a in args + self.attr_params)
+        self.params = args + self.attr_params
+        return 'def %s %s : %s :=\n%s\n' % (self.lean_name, sig, ret, body)
 
 
 def _assigned(node):
@@ -218,6 +283,19 @@ def _assigned(node):
         elif isinstance(n, ast.AugAssign) and isinstance(n.target, ast.Name):
             out.append(n.target)
     return out
+
+
+def _read_before_write(stmts, var):
+    """Is `var` read in the loop body before (or in the same statement as) its first write?"""
+    for s in stmts:
+        reads = {n.id for n in ast.walk(s) if isinstance(n, ast.Name) and isinstance(n.ctx, ast.Load)}
+        if isinstance(s, ast.AugAssign) and isinstance(s.target, ast.Name) and s.target.id == var:
+            return True
+        if var in reads:
+            return True
+        if any(t.id == var for t in _assigned(s)):
+            return False
+    return False
 
 
 def _has_return(stmts):
@@ -237,7 +315,8 @@ def _always_returns(stmts):
 
 # --------------------------------------------------------------------------- generation
 
-HEADER = '/- GENERATED by harness/py2lean.py from %s on every run — do not edit. -/\nnamespace Pycdlib.Generated\n\n'
+HEADER = ('/- GENERATED by harness/py2lean.py from %s on every run — do not edit. -/\n'
+          'import Pycdlib.Model.PyOps\nnamespace Pycdlib.Generated\nopen Pycdlib.PyOps\n\n')
 FOOTER = '\nend Pycdlib.Generated\n'
 
 
@@ -251,19 +330,64 @@ def _emit(outdir, fname, text, info):
     info['files'][fname] = 'rewritten' if old != text else 'unchanged'
 
 
+def _try(info, label, thunk):
+    try:
+        return thunk()
+    except (Unsupported, SyntaxError, KeyError, ValueError, AttributeError, IndexError, TypeError) as e:
+        info['unsupported'].append('%s: %s' % (label, e))
+        return '-- %s could not be translated: %s\n' % (label, str(e).replace('\n', ' ')[:200])
+
+
 def gen_names(repo, info):
     tree = ast.parse(_read(repo, 'pycdlib/pycdlib.py'))
     out = HEADER % 'pycdlib/pycdlib.py'
-    try:
-        d1 = sorted(safe_eval(_module_assign(tree, '_allowed_d1_characters')))
-        out += lean_nat_list('allowedD1', d1, doc='`_allowed_d1_characters` (pycdlib.py:57), sorted')
-    except Unsupported as e:
-        info['unsupported'].append('allowedD1: %s' % e)
-        out += 'def allowedD1 : List Nat := []\n'
+    out += _try(info, 'allowedD1', lambda: lean_nat_list(
+        'allowedD1', sorted(safe_eval(_module_assign(tree, '_allowed_d1_characters'))),
+        doc='`_allowed_d1_characters` (pycdlib.py), sorted'))
     return out + FOOTER
 
 
-GENERATORS = [('Names.lean', gen_names)]
+def gen_checksum(repo, info):
+    udf = ast.parse(_read(repo, 'pycdlib/udf.py'))
+    hyb = ast.parse(_read(repo, 'pycdlib/isohybrid.py'))
+    elt = ast.parse(_read(repo, 'pycdlib/eltorito.py'))
+    out = HEADER % 'pycdlib/udf.py, pycdlib/isohybrid.py, pycdlib/eltorito.py'
+    out += _try(info, 'crc_ccitt_table', lambda: lean_nat_list('crc_ccitt_table', safe_eval(_module_assign(udf, 'crc_ccitt_table')),
+                                                               doc='udf.py `crc_ccitt_table`'))
+    out += '\n' + _try(info, 'crc32_table', lambda: lean_nat_list('crc32_table', safe_eval(_module_assign(hyb, 'crc32_table')),
+                                                                  doc='isohybrid.py `crc32_table`'))
+    out += '\n' + _try(info, 'crc_ccitt', lambda: Fn(udf, 'crc_ccitt', 'crc_ccitt', tables={'crc_ccitt_table': 'crc_ccitt_table'}).translate(seq_params=('data',)))
+    out += '\n' + _try(info, 'crc32', lambda: Fn(hyb, 'crc32', 'crc32', tables={'crc32_table': 'crc32_table'}).translate(seq_params=('data',)))
+    out += '\n' + _try(info, 'eltorito_checksum', lambda: Fn(elt, 'EltoritoValidationEntry._checksum', 'eltorito_checksum').translate(seq_params=('data',)))
+    return out + FOOTER
+
+
+def gen_kernel(repo, info):
+    utils = ast.parse(_read(repo, 'pycdlib/utils.py'))
+    ptr = ast.parse(_read(repo, 'pycdlib/path_table_record.py'))
+    udf = ast.parse(_read(repo, 'pycdlib/udf.py'))
+    hyb = ast.parse(_read(repo, 'pycdlib/isohybrid.py'))
+    out = HEADER % 'pycdlib/utils.py, path_table_record.py, udf.py, isohybrid.py'
+    out += _try(info, 'ceiling_div', lambda: Fn(utils, 'ceiling_div', 'ceiling_div').translate())
+    out += '\n' + _try(info, 'gmtoffset_from_tm', lambda: Fn(utils, 'gmtoffset_from_tm', 'gmtoffset_from_tm', opaque=('tm', 'localtime')).translate())
+
+    def ptr_len():
+        size = struct.calcsize(_class_const(ptr, 'PathTableRecord', 'FMT'))
+        return Fn(ptr, 'PathTableRecord.record_length', 'ptr_record_length', fmt_sizes={'cls.FMT': size}).translate()
+    out += '\n' + _try(info, 'ptr_record_length', ptr_len)
+
+    def fid_len():
+        size = struct.calcsize(_class_const(udf, 'UDFFileIdentifierDescriptor', 'FMT'))
+        a = Fn(udf, 'UDFFileIdentifierDescriptor.pad', 'fid_pad').translate()
+        b = Fn(udf, 'UDFFileIdentifierDescriptor.length', 'fid_length', fmt_sizes={'cls.FMT': size},
+               calls={'UDFFileIdentifierDescriptor.pad': 'fid_pad'}).translate()
+        return a + '\n' + b
+    out += '\n' + _try(info, 'fid_length', fid_len)
+    out += '\n' + _try(info, 'calc_cc', lambda: Fn(hyb, 'IsoHybrid._calc_cc', 'calc_cc').translate(ret='Int × Int'))
+    return out + FOOTER
+
+
+GENERATORS = [('Names.lean', gen_names), ('Checksum.lean', gen_checksum), ('Kernel.lean', gen_kernel)]
 
 
 def generate(repo, outdir):
@@ -271,10 +395,10 @@ def generate(repo, outdir):
     for fname, fn in GENERATORS:
         try:
             text = fn(repo, info)
-        except (Unsupported, SyntaxError, KeyError, ValueError) as e:
+        except Exception as e:  # noqa  (unreadable / unparsable source)
             info['unsupported'].append('%s: %r' % (fname, e))
             # never leave a stale file behind: an empty module makes the tie lemmas fail to elaborate
-            text = (HEADER % 'n/a') + '-- generation failed: %r\n' % (e,) + FOOTER
+            text = (HEADER % 'n/a') + '-- generation failed: %s\n' % (repr(e).replace('\n', ' ')[:200],) + FOOTER
         _emit(outdir, fname, text, info)
     return info
 
